@@ -481,15 +481,56 @@ def run(fx, chk, cg, tw):
                                 delta = None
                 ent = entry_state(sws, blocks) if optional else "Some"
                 stored = optional and any(e.kind == "assign" and e.data["place"]["l"] == 1 and e.data["place"]["p"] and isinstance(e.data["place"]["p"][-1], dict) and e.data["place"]["p"][-1].get("f") == fname and short(e.data["place"]["p"][-1].get("adt") or "") == "StblBox" for e in events)
+                if optional and any(b0 in blocks for b0 in creating_calls.get(fname, ())):
+                    stored = True       # created through Option::get_or_insert_with / insert on this path
                 if optional and ent == "None" and not stored:
                     continue      # table stays absent: R6's subject
                 created_here = optional and ent == "None" and stored
                 n7 += 1
                 verdict, why = judge(fx, lin, st, delta, created_here, fid, n_form)
-                if optional and any(b0 in blocks for b0 in creating_calls.get(fname, ())) and not verdict:
-                    # the table is created by Option::get_or_insert_with / insert: what the new table holds is built in a
-                    # closure or an argument expression this path analysis does not follow
-                    verdict, why = None, "table created through an Option combinator; its initial contents are not followed"
+                if optional and ent == "None" and any(b0 in blocks for b0 in creating_calls.get(fname, ())):
+                    # the table is created on this path by Option::get_or_insert_with: its initial contents are built in the
+                    # closure.  Follow it: per closure path, the parent's additions plus the closure's must be n + 1.
+                    cc = closure_contrib(fx, body, it, events, blocks, creating_calls.get(fname, ()), eadt, fid, n_form) if delta is not None else None
+                    if not cc:
+                        verdict, why = None, "table created through an Option combinator; its initial contents could not be followed"
+                    else:
+                        verdict, why = True, "is created covering n + 1 samples on every path of the creating closure"
+                        for cform, (clo_, chi_) in cc:
+                            if cform is None:
+                                verdict, why = None, "the creating closure adds an amount that is not a linear form of the captured counters"
+                                continue
+                            tot = l_add(delta, cform)
+                            a_ = b_ = 0
+                            bad_var = False
+                            for v_, c_ in tot.items():
+                                if v_ == ():
+                                    b_ += c_
+                                    continue
+                                f_ = n_form(v_, fid, 0)
+                                if f_ is None:
+                                    bad_var = True
+                                    break
+                                a_ += c_ * f_[0]
+                                b_ += c_ * f_[1]
+                            if bad_var:
+                                verdict, why = None, "the creating closure adds %s, which is not related to the writer's counters" % l_str(cform)
+                                continue
+                            if (a_, b_) == (1, 1):
+                                continue
+                            # wrong for every n the closure path admits?  (a == 1: off by a constant for all n; else equal for one n only)
+                            if a_ == 1:
+                                verdict, why = False, "is created covering %s samples (closure adds %s) where n + 1 are required" % (fmt_n(a_, b_), l_str(cform))
+                                break
+                            n_eq = (1 - b_) / (a_ - 1) if a_ != 1 else None
+                            if chi_ is not None and clo_ == chi_ and a_ * clo_ + b_ == clo_ + 1:
+                                continue
+                            if n_eq is not None and n_eq == int(n_eq) and clo_ <= n_eq and (chi_ is None or n_eq <= chi_):
+                                if verdict:
+                                    verdict, why = None, "is created covering %s samples on a closure path whose n the analysis cannot pin (correct only for n = %d)" % (fmt_n(a_, b_), int(n_eq))
+                                continue
+                            verdict, why = False, "is created covering %s samples (closure adds %s) where n + 1 are required, n in [%s, %s]" % (fmt_n(a_, b_), l_str(cform), clo_, chi_ if chi_ is not None else "inf")
+                            break
                 key = "%s|%s|path%d" % (fn_short(fid), fname, pi)
                 if verdict is None:
                     undecided.append(key)
@@ -546,6 +587,109 @@ def n_range(lin, st, form_of):
         if vhi is not None:
             hi = vhi - f[1] if hi is None else min(hi, vhi - f[1])
     return lo, hi
+
+
+def closure_contrib(fx, body, it, events, blocks, creating_blocks, eadt, fid, n_form):
+    """samples the initial contents of a table created by `Option::get_or_insert_with(|| ..)` cover, per return path of the
+    closure: [(linear form in the writer's counters or None, (n_lo, n_hi) on that closure path)], or None when the
+    closure cannot be followed.  Captured variables are mapped to their linear forms at the closure's creation."""
+    lin = Lin(it)
+    out = []
+    for e in events:
+        if e.kind != "call" or e.block not in creating_blocks:
+            continue
+        t = e.data
+        if len(t["args"]) < 2:
+            return None
+        cpl = op_place(t["args"][1])
+        cty = (cpl or {}).get("ty") or (t["args"][1].get("const") or {}).get("ty") or ""
+        cids = [k for k in fx.fns if k.startswith(fid + "::{closure")]
+        # the closure value: a local aggregate (captures) or a constant (captures nothing)
+        agg = None
+        for e2 in events:
+            if e2.kind == "assign" and e2.data["rv"]["k"] == "agg" and e2.data["rv"].get("ak") == "closure" and e2.data["rv"].get("def") in cids:
+                if cpl is not None and e2.data["place"]["l"] == cpl["l"]:
+                    agg = e2
+        if agg is None:
+            m = re.search(r"\{closure@([^:}]+):(\d+):", cty)
+            cands = [k for k in cids if m and (fx.fns[k].get("span") or {}).get("line") == int(m.group(2))]
+            if len(cands) != 1:
+                return None
+            cid, caps = cands[0], []
+        else:
+            cid = agg.data["rv"]["def"]
+            caps = []
+            for o in agg.data["rv"]["ops"]:
+                pl = op_place(o)
+                if pl is not None and pl["ty"].startswith("&"):
+                    tgt = it.ref_target(agg.state, o)
+                    sid = agg.state.cells.get(tgt) if tgt is not None else None
+                    caps.append((lin.sym(agg.state, sid) if sid is not None else None, True))
+                else:
+                    caps.append((lin.op(agg.state, o, (agg.block, agg.index)), False))
+        cbody = body_of(fx.fns[cid])
+        if cbody is None:
+            return None
+        env_ref = cbody.locals[1]["ty"].startswith("&") if cbody.argc >= 1 else False
+
+        def cap_of(v):
+            """capture index when closure variable `v` is a captured value"""
+            if not (isinstance(v, tuple) and v and v[0] == 1):
+                return None
+            rest = v[1:]
+            if env_ref and rest[:1] == ("deref",):
+                rest = rest[1:]
+            if rest and isinstance(rest[0], str) and rest[0].startswith(".") and rest[0][1:].isdigit() and all(x == "deref" for x in rest[1:]):
+                return int(rest[0][1:])
+            return None
+        for cit, cblocks, cevents, cst, ckind in pathwise.paths(fx, cbody):
+            if ckind != "return":
+                continue
+            clin = Lin(cit)
+            d = l_const(0)
+            for ce in cevents:
+                if ce.kind == "call" and strip_generics(ce.data["callee"].get("path") or "") == "alloc::vec::Vec::push" and len(ce.data["args"]) == 2:
+                    pl = op_place(ce.data["args"][1])
+                    if pl is None or not (pl["ty"] == eadt or pl["ty"].endswith("::" + short(eadt)) or pl["ty"] == short(eadt)):
+                        continue
+                    sid = ce.state.cells.get((pl["l"], ".sample_count"))
+                    d = l_add(d, clin.sym(ce.state, sid) if sid is not None else None)
+            # substitute captured variables
+            sub = l_const(0) if d is not None else None
+            n_lo, n_hi = 0, None
+            if d is not None:
+                for v, c in d.items():
+                    if v == ():
+                        sub = l_add(sub, l_const(c))
+                        continue
+                    ci = cap_of(v)
+                    if ci is None or ci >= len(caps) or caps[ci][0] is None:
+                        sub = None
+                        break
+                    sub = l_add(sub, l_scale(caps[ci][0], c))
+            # range of n on this closure path from the intervals of captured counters
+            for site, sid in cit.site_syms.items():
+                if site[0] != "rd" or sid not in cst.iv:
+                    continue
+                ci = cap_of(site[2])
+                if ci is None or ci >= len(caps) or not caps[ci][0]:
+                    continue
+                form = caps[ci][0]
+                vars_ = [v for v in form if v != ()]
+                if len(vars_) != 1 or form[vars_[0]] != 1:
+                    continue
+                f = n_form(vars_[0], fid, 0)
+                if f is None or f[0] != 1:
+                    continue
+                off = f[1] + form.get((), 0)
+                vlo, vhi = cit.iv(cst, sid)
+                if vlo is not None:
+                    n_lo = max(n_lo, vlo - off)
+                if vhi is not None:
+                    n_hi = vhi - off if n_hi is None else min(n_hi, vhi - off)
+            out.append((sub, (n_lo, n_hi)))
+        return out
+    return None
 
 
 def judge(fx, lin, st, delta, created_here, fid, n_form):
